@@ -196,4 +196,117 @@ theorem mem_btInsert_iff (hs : SWO less) (x y : α) (l : List α) (hl : Sorted l
           · exact Or.inr a
 
 end bt
+/-! ### the comparators are strict weak orders -/
+
+theorem str_lt_trichotomy (a b : String) : a < b ∨ a = b ∨ b < a := by
+  by_cases h1 : a < b
+  · exact Or.inl h1
+  · by_cases h2 : b < a
+    · exact Or.inr (Or.inr h2)
+    · exact Or.inr (Or.inl (String.le_antisymm (String.not_lt.1 h2) (String.not_lt.1 h1)))
+
+def rlt (p q : Nat × Int) : Prop := p.1 < q.1 ∨ (p.1 = q.1 ∧ p.2 < q.2)
+
+/-- lexicographic "(rank, name)" comparison is a strict weak order; both comparators are instances -/
+theorem swo_lex {α : Type} (rank : α → Nat × Int) (name : α → String) (less : α → α → Bool)
+    (h : ∀ a b, less a b = true ↔ (rlt (rank a) (rank b) ∨ (rank a = rank b ∧ name a < name b))) : SWO less := by
+  have lt_irr : ∀ p : Nat × Int, ¬ rlt p p := fun p hp => by
+    rcases hp with x | x <;> omega
+  have lt_tr : ∀ p q r : Nat × Int, rlt p q → rlt q r → rlt p r := by
+    intro p q r h1 h2
+    unfold rlt at *
+    rcases h1 with x | x <;> rcases h2 with y | y
+    · left; omega
+    · left; omega
+    · left; omega
+    · right; constructor <;> omega
+  have lt_tri : ∀ p q : Nat × Int, rlt p q ∨ p = q ∨ rlt q p := by
+    intro p q
+    by_cases h1 : p.1 < q.1
+    · exact Or.inl (Or.inl h1)
+    · by_cases h2 : q.1 < p.1
+      · exact Or.inr (Or.inr (Or.inl h2))
+      · have e1 : p.1 = q.1 := by omega
+        by_cases h3 : p.2 < q.2
+        · exact Or.inl (Or.inr ⟨e1, h3⟩)
+        · by_cases h4 : q.2 < p.2
+          · exact Or.inr (Or.inr (Or.inr ⟨e1.symm, h4⟩))
+          · have e2 : p.2 = q.2 := by omega
+            exact Or.inr (Or.inl (Prod.ext e1 e2))
+  refine ⟨?_, ?_, ?_⟩
+  · intro a
+    cases hx : less a a with
+    | false => rfl
+    | true =>
+      rcases (h a a).1 hx with x | x
+      · exact absurd x (lt_irr _)
+      · exact absurd x.2 (String.lt_irrefl _)
+  · intro a b c h1 h2
+    rw [h] at *
+    rcases h1 with x | ⟨x1, x2⟩ <;> rcases h2 with y | ⟨y1, y2⟩
+    · exact Or.inl (lt_tr _ _ _ x y)
+    · exact Or.inl (y1 ▸ x)
+    · exact Or.inl (x1 ▸ y)
+    · exact Or.inr ⟨x1.trans y1, String.lt_trans x2 y2⟩
+  · intro a b c h1 h2
+    cases hx : less a c with
+    | false => rfl
+    | true =>
+      exfalso
+      have n1 : ¬ (rlt (rank a) (rank b) ∨ (rank a = rank b ∧ name a < name b)) := fun x => by
+        rw [(h a b).2 x] at h1; cases h1
+      have n2 : ¬ (rlt (rank b) (rank c) ∨ (rank b = rank c ∧ name b < name c)) := fun x => by
+        rw [(h b c).2 x] at h2; cases h2
+      simp only [not_or, not_and] at n1 n2
+      rcases (h a c).1 hx with x | ⟨x1, x2⟩
+      · rcases lt_tri (rank a) (rank b) with y | y | y
+        · exact n1.1 y
+        · rw [y] at x; exact n2.1 x
+        · rcases lt_tri (rank b) (rank c) with z | z | z
+          · exact n2.1 z
+          · rw [← z] at x; exact lt_irr _ (lt_tr _ _ _ x y)
+          · exact lt_irr _ (lt_tr _ _ _ (lt_tr _ _ _ x z) y)
+      · rcases lt_tri (rank a) (rank b) with y | y | y
+        · exact n1.1 y
+        · have nb : ¬ name a < name b := n1.2 y
+          have nc : ¬ name b < name c := n2.2 (y ▸ x1)
+          rcases str_lt_trichotomy (name a) (name b) with z | z | z
+          · exact nb z
+          · rw [z] at x2; exact nc x2
+          · rcases str_lt_trichotomy (name b) (name c) with w | w | w
+            · exact nc w
+            · rw [← w] at x2; exact String.lt_irrefl _ (String.lt_trans x2 z)
+            · exact String.lt_irrefl _ (String.lt_trans (String.lt_trans x2 w) z)
+        · rw [x1] at y; exact n2.1 y
+
+def tierRank (k : TierKey) : Nat × Int :=
+  ((if k.valid then 0 else 2) + (if k.order.isSome then 0 else 1), k.order.getD 0)
+
+theorem swo_tierLess : SWO tierLess := by
+  apply swo_lex tierRank (·.name)
+  intro a b
+  obtain ⟨an, av, ao⟩ := a
+  obtain ⟨bn, bv, bo⟩ := b
+  cases av <;> cases bv <;> cases ao <;> cases bo <;>
+    simp [tierLess, tierRank, rlt, Prod.ext_iff] <;> (try omega)
+  all_goals
+    rename_i x y
+    by_cases hxy : x = y
+    · subst hxy; simp
+    · simp [hxy]; omega
+
+def polRank (p : PolKV) : Nat × Int := (if p.val.order.isSome then 0 else 1, p.val.order.getD 0)
+
+theorem swo_polKVLess : SWO polKVLess := by
+  apply swo_lex polRank (fun p => tieStr p.key)
+  intro a b
+  obtain ⟨ak, am⟩ := a
+  obtain ⟨bk, bm⟩ := b
+  cases hao : am.order <;> cases hbo : bm.order <;>
+    simp [polKVLess, orderLt, polRank, rlt, hao, hbo, Prod.ext_iff]
+  rename_i x y
+  by_cases hxy : x = y
+  · subst hxy; simp
+  · simp [hxy]; omega
+
 end CalicoVerif.C03
